@@ -298,7 +298,7 @@ def tlc_validate(spec, cfg, records, shards=None, timeout=1800, env=None, tag="t
                 k = r.get("kind", "")
                 if k not in seen_kinds:
                     seen_kinds.add(k)
-                    f.write(byteview_json(r) + "\n")
+                    f.write(json.dumps(r, separators=(",", ":")) + "\n")      # plain: samples are fed back through this function
     shards = shards or max(1, min(NCPU // 2, (len(records) + 399) // 400))
     d = os.path.join(WORK, "traces", "%s-%d" % (tag, os.getpid()))
     shutil.rmtree(d, ignore_errors=True)
